@@ -19,6 +19,7 @@ EVID = os.path.join(VERIF, 'evidence')
 REPLAYS = os.path.join(VERIF, 'replays')
 
 CASE_WALL_S = 120
+MAX_REPORTED = 6
 
 REAL = ['pynetdicom2/* from /repo (dulprovider run loop, fsm, pdu/userdataitems codecs, '
         'dimsemessages, asceprovider, applicationentity, sopclass, statuses)', 'pydicom', 'six',
@@ -66,7 +67,6 @@ def _run_chunk(modname, cases):
             faulthandler.cancel_dump_traceback_later()
         r['case'] = case
         r['wall'] = time.time() - t0
-        r.pop('trace', None) if not r.get('violations') else None
         out.append(r)
     return out
 
@@ -113,7 +113,7 @@ class Agg(object):
         if r.get('sample') is not None and len(self.samples) < 4:
             self.samples.append(r['sample'])
         for v in r.get('violations', []):
-            self.by_sig.setdefault(v['sig'], []).append((r['case'], v, r.get('trace')))
+            self.by_sig.setdefault(v['sig'], []).append((v.pop('explicit', None) or r['case'], v, None))
 
 
 def run_cases(mod, modname, cases_iter, jobs, budget_s, chunk=8):
@@ -250,6 +250,12 @@ def main(prop, argv):
                 prop, known_open[sig].get('what', ''), sig, len(occ)))
             continue
         unknown += 1
+        if unknown > MAX_REPORTED:
+            print('signature (not minimised, over the reporting cap): %s (%d occurrences)' % (
+                sig, len(occ)))
+            if rc == 0:
+                rc = 1
+            continue
         case, v, _ = occ[0]
         small = minimise(mod, case, sig)
         r2 = mod.run_case(small)
